@@ -86,8 +86,13 @@ def hopping_system(seed, n_frames=60, n_diff=3, n_sites=5, n_frame_atoms=2, fami
             coords[t, n_diff + b] = frame_home[b] + (rng.normal(scale=vib * 0.5, size=3) @ inv)
     if int_shift:
         coords = coords + rng.integers(-2, 3, size=coords.shape)
-    cls = Element if species_cls == 'Element' else Species
-    species = [cls(diff_symbol)] * n_diff + [cls(frame_symbols[b % len(frame_symbols)]) for b in range(n_frame_atoms)]
+    if species_cls == 'SpeciesOx':
+        # Species carrying an oxidation state: str(sp) is 'Li+' while sp.symbol is 'Li'
+        ox = {'Li': 1, 'Na': 1, 'O': -2, 'P': 5, 'N': -3, 'S': -2}
+        mk = lambda sym: Species(sym, ox.get(sym, 1))  # noqa: E731
+    else:
+        mk = Element if species_cls == 'Element' else Species
+    species = [mk(diff_symbol)] * n_diff + [mk(frame_symbols[b % len(frame_symbols)]) for b in range(n_frame_atoms)]
     traj = Trajectory(species=species, coords=coords, lattice=lat.matrix, time_step=time_step,
                       metadata={'temperature': temperature})
     return traj, sites, {'lattice': lat, 'labels': list(labels), 'site_positions': site_positions}
